@@ -59,8 +59,18 @@ def inject_shapes(R, ctx):
     N = "nodes::"
     EXPR, PREFIX, ID = N + "expressions::Expression", N + "expressions::prefix::Prefix", N + "identifier::Identifier"
     TR = "process::scope_visitor::IdentifierTracker"
-    f_expr = lib.fn("<%s as process::node_processor::NodeProcessor>::process_expression" % VI)
-    f_pref = lib.fn("<%s as process::node_processor::NodeProcessor>::process_prefix_expression" % VI)
+    # the injecting processor, by role: the struct next to the rule that holds a scope tracker, the value to inject and the name
+    VI = globals()["VI"]
+    roles = [p_ for p_, a_ in lib.adts.items() if p_.startswith("rules::inject_value::") and a_.get("kind") == "struct"
+             and any(TR in f["tys"] for f in a_["variants"][0]["fields"]) and any(f["tys"].endswith("Expression") for f in a_["variants"][0]["fields"])]
+    if len(roles) == 1:
+        VI = roles[0]
+
+    def callback(name):
+        # the impl may carry lifetime parameters: `<ValueInjection<'_> as NodeProcessor>::..`
+        suf = " as process::node_processor::NodeProcessor>::" + name
+        return next((f for k, f in lib.fns.items() if k.endswith(suf) and (k.startswith("<" + VI + " ") or k.startswith("<" + VI + "<")) and thir.body_of(f)), None)
+    f_expr, f_pref = callback("process_expression"), callback("process_prefix_expression")
     tr_new = lib.fn(TR + "::new")
     sets = [f["name"] for f in lib.adts.get(TR, {"variants": [{"fields": []}]})["variants"][0]["fields"] if "HashSet<alloc::string::String>" in f["tys"]]
     if not R.require(rid, "anchor:callbacks", f_expr is not None and tr_new is not None and len(sets) == 1 and VI in lib.adts, "", "ValueInjection callbacks / IdentifierTracker layout not found"):
@@ -96,7 +106,8 @@ def inject_shapes(R, ctx):
                     tr.fields[sets[0]] = [PySet([root])]
                 over = {}
                 for name, ty in over_by_type.items():
-                    over[name] = "DEBUG" if ty == "alloc::string::String" else (tr if ty == TR else (Enum(EXPR, "True", {"0": NONE}) if ty == EXPR else None))
+                    bare = ty.replace("&'a ", "").replace("&'_ ", "").replace("&", "").replace("mut ", "").strip()
+                    over[name] = "DEBUG" if bare in ("alloc::string::String", "str") else (tr if bare == TR else (Enum(EXPR, "True", {"0": NONE}) if bare == EXPR else None))
                 vi = make(lib, VI, {k: v for k, v in over.items() if v is not None})
                 node = build()
                 before = repr(node)
